@@ -48,6 +48,8 @@ func (o tgOp) coq() string {
 
 type tgRun struct {
 	mu     sync.Mutex
+	handed [][2]uint64 // what the election callback was handed, per delivered trigger
+	later  []func()    // the functions of the delivered triggers, run after the sequence
 	got    [][2]uint64
 	done   chan struct{}
 	paused int32 // the reader does not touch the channel while set
@@ -61,7 +63,7 @@ func (r *tgRun) count() int {
 }
 
 // runTriggerSeq drives one fresh trigger; returns what the reader received and whether a wait for an expected trigger timed out
-func runTriggerSeq(ops []tgOp, base time.Duration) (got [][2]uint64, expected [][2]uint64, parked int, tightOut bool) {
+func runTriggerSeq(ops []tgOp, base time.Duration) (got [][2]uint64, expected [][2]uint64, parked int, tightOut bool, handed [][2]uint64) {
 	tr := Electiontrigger.NewTimerBasedElectionTrigger(base, nil)
 	run := &tgRun{done: make(chan struct{})}
 	stopReader := make(chan struct{})
@@ -84,12 +86,21 @@ func runTriggerSeq(ops []tgOp, base time.Duration) (got [][2]uint64, expected []
 				run.mu.Lock()
 				run.got = append(run.got, [2]uint64{uint64(t.Hv.Height()), uint64(t.Hv.View())})
 				run.mu.Unlock()
+				if t.MoveToNextLeader != nil {
+					run.mu.Lock()
+					run.later = append(run.later, t.MoveToNextLeader) // run at the end, after whatever was registered since: it must still speak of the pair the trigger carries
+					run.mu.Unlock()
+				}
 			case <-stopReader:
 				return
 			}
 		}
 	}()
-	cb := func(h primitives.BlockHeight, v primitives.View, f interfaces.OnElectionCallback) {}
+	cb := func(h primitives.BlockHeight, v primitives.View, f interfaces.OnElectionCallback) {
+		run.mu.Lock()
+		run.handed = append(run.handed, [2]uint64{uint64(h), uint64(v)})
+		run.mu.Unlock()
+	}
 	// the reference: what the property text says must come out
 	handler := false
 	var ph, pv uint64
@@ -179,7 +190,15 @@ func runTriggerSeq(ops []tgOp, base time.Duration) (got [][2]uint64, expected []
 	if k := countParked(); k > parked {
 		parked = k
 	}
-	return run.got, expected, parked, tight
+	run.mu.Lock()
+	fs := run.later
+	run.mu.Unlock()
+	for _, f := range fs {
+		f()
+	}
+	run.mu.Lock()
+	defer run.mu.Unlock()
+	return run.got, expected, parked, tight, run.handed
 }
 
 func runTrigger(cfg *runCfg) error {
@@ -233,12 +252,12 @@ func runTrigger(cfg *runCfg) error {
 		} else {
 			ops = append(ops, tgOp{"settle", 0, 0})
 		}
-		var got, exp [][2]uint64
+		var got, exp, handed [][2]uint64
 		var parked int
 		for attempt := 0; ; attempt++ {
 			sw := startStallWatch()
 			var tight bool
-			got, exp, parked, tight = runTriggerSeq(ops, base)
+			got, exp, parked, tight, handed = runTriggerSeq(ops, base)
 			stalled := sw.finish()
 			if (stalled || tight) && attempt < 3 {
 				rep.count("trigger:sequence-repeated-after-machine-stall-or-tight-timing")
@@ -266,6 +285,12 @@ func runTrigger(cfg *runCfg) error {
 				sig = "armed-timer-did-not-deliver"
 			}
 			rep.finding("C19", sig, fmt.Sprintf("operations %v: the channel reader received %v, the property demands %v", desc, got, exp), map[string]interface{}{"ops": desc, "received": got, "expected": exp, "base_timeout_ms": base.Milliseconds()})
+		}
+		for j := 0; j < len(got) && j < len(handed); j++ {
+			if got[j] != handed[j] {
+				rep.finding("C19", "callback-handed-another-pair", fmt.Sprintf("operations %v: the trigger read from the channel carries %v, the election callback it runs was handed %v", desc, got[j], handed[j]), map[string]interface{}{"ops": desc, "received": got, "handed": handed})
+				break
+			}
 		}
 		if parked > 0 {
 			rep.finding("C19", "fired-callback-not-released", fmt.Sprintf("operations %v: %d goroutine(s) of the trigger are still parked in triggerElections after the final Stop", desc, parked), map[string]interface{}{"ops": desc})
